@@ -183,13 +183,32 @@ func TestC12Switch(t *testing.T) {
 				connect(j, k+1)   // every ring router - tail
 			}
 		}
+		// One short path in three (on lines of four or more routers) turns round
+		// twice on its way.
+		zig, turn := false, 0
+		if !long && nNodes >= 4 && c.Chance("zigzag", 1, 3) {
+			zig, turn = true, c.Int("zigzag.turn", 2, nNodes-2)
+			c.Class("switch/path-that-turns-round-at-a-router")
+		}
 		var sp *m.SwitchPath
 		var hops []m.SwitchHop
 		var path, back []int
 		var fwd, ret []m.SwitchLabel
 		for ; ; h-- {
 			path = nil
-			if !long {
+			if zig {
+				// 0 .. turn, one step back, forward again to the end: the routers
+				// in the middle see the frame twice, and at the turning points it
+				// leaves over the link it came in on.
+				for i := 0; i <= turn; i++ {
+					path = append(path, i)
+				}
+				path = append(path, turn-1)
+				for i := turn; i < nNodes; i++ {
+					path = append(path, i)
+				}
+				h = len(path)
+			} else if !long {
 				for i := 0; i < h; i++ {
 					path = append(path, i)
 				}
